@@ -45,6 +45,9 @@ THEOREMS = [
     "C09_store_first_witness",
     "C09_factory_fresh_class",
     "C09_factory_stale_witness",
+    "C09_replace_keeps_links",
+    "C09_replace_by_label_witness",
+    "C09_inplace_load_witness",
     "C09_links_sync_receiving_witness",
     "C09_links_sync_not_statement",
     "C09_dup_return_repaired",
@@ -486,6 +489,14 @@ def _targets(defn):
     return t
 
 
+def apply_replace(defn, op):
+    """the definition after `replace` (child j of the macro at op[1] becomes the term node F_g)"""
+    nd = json.loads(json.dumps(defn))
+    m = node_at(nd, op[1])
+    m["body"][op[2]]["f"] = op[3]
+    return nd
+
+
 def accepts(defn, path, k, val, locked):
     """would `node_at_path.inputs[k].value = val` go through: no node on the chain of value links is locked
     (marked running) and no hinted macro input on it rejects the value (only `str | tuple` rejects an int)"""
@@ -663,6 +674,33 @@ def gen_history(rng, defn, mode, cache):
             ops[at:at] = grp
             if rng.random() < 0.6:
                 ops.append(["run"])
+    # edits between runs: a term child replaced (by method, by `replace_with`, by assigning a class to its label),
+    # a nested macro saved and loaded in place — then macro-level assignments and a run
+    if not has_cyc(defn) and rng.random() < 0.3:
+        depth_lock = 0
+        safe = []
+        for i, o in enumerate(ops + [None]):
+            if depth_lock == 0:
+                safe.append(i)
+            if o is not None and o[0] == "lock":
+                depth_lock += 1
+            if o is not None and o[0] == "unlock":
+                depth_lock -= 1
+        macs = [[]] + [list(p) for p in _paths(defn) if node_at(defn, p)["t"] == "M"]
+        edits = []
+        for _ in range(rng.choice([1, 1, 2])):
+            if rng.random() < 0.7:
+                pm = rng.choice(macs)
+                leaves = [j for j, ch in enumerate(node_at(defn, pm)["body"]) if ch["t"] == "L"]
+                if leaves:
+                    edits.append(["replace", pm, rng.choice(leaves), rng.randrange(32), rng.choice(["method", "with", "class"])])
+            elif len(macs) > 1:
+                edits.append(["reload", rng.choice(macs[1:])])
+        for e in edits:
+            at = rng.choice(safe)
+            grp = [e] + [["setin", [], k, _value(rng)] for k in range(nargs) if rng.random() < 0.7] + [["run"]]
+            ops[at:at] = grp
+            safe = [x if x <= at else x + len(grp) for x in safe]
     # some runs go through a by-value executor: the macro itself (pickled, run on the copy, merged back) or a
     # nested macro child inside the run
     mac_paths = [[]] + [list(p) for p in _paths(defn) if node_at(defn, p)["t"] == "M"]
@@ -900,6 +938,8 @@ MALFORMED = [
     "call 1 0 c0",
     "resend - x",
     "lock",
+    "replace - 0",
+    "reload",
     "setin - 0 i",
     "lab m 3 a b",
     "lab m x",
@@ -965,7 +1005,18 @@ def W_SUB():
     return {"def": m, "kwargs": [], "cache": True, "ops": [["run"]], "mode": "clean", "touch_base": True}
 
 
+def W_RELOAD():
+    """a nested macro saved and loaded in place, then the outer input assigned and a run"""
+    inner = _mac(1, [(None, 0)], [_leaf(0, ["a", 0])], [["o", 0, 0]])
+    inner["srcs"] = [["a", 0]]
+    outer = _mac(2, [("c2", 0)], [inner, _leaf(1, ["o", 0, 0])], [["o", 1, 0]])
+    return {"def": outer, "kwargs": [], "cache": False,
+            "ops": [["run"], ["reload", [0]], ["setin", [], 0, "c7"], ["run"]], "mode": "clean", "touch_base": True}
+
+
 def corpus():
+    # KF-C09-4: a nested macro loaded in place keeps its inputs linked to the discarded children
+    yield W_RELOAD()
     # KF-C09-3: labels scraped for a parent class are inherited by the class that overrides graph_creator
     yield W_SUB()
     sub_first = W_SUB()
@@ -1056,7 +1107,33 @@ def _variant():
             own = 1 if list(ProbeChildC09.preview_io()["outputs"]) == ["c1"] else 0
         except Exception:  # noqa: BLE001
             own = 0
-        _VARIANT = [dup, unlinked, own]
+        try:
+            import os
+            import tempfile
+
+            @as_macro_node("o")
+            def ProbeInnerC09(self, x0="c1"):
+                self.c0 = nodes.F0(a=x0)
+                return self.c0
+
+            @as_macro_node("o")
+            def ProbeOuterC09(self, x0="c1"):
+                self.c0 = ProbeInnerC09(x0=x0)
+                return self.c0
+
+            here = os.getcwd()
+            with tempfile.TemporaryDirectory() as tmp:
+                os.chdir(tmp)
+                try:
+                    po = ProbeOuterC09(label="probe")
+                    po.c0.save(backend="pickle")
+                    po.c0.load(backend="pickle")
+                    reload_ok = 1 if po.c0.inputs.x0.value_receiver.owner.parent is po.c0 else 0
+                finally:
+                    os.chdir(here)
+        except Exception:  # noqa: BLE001
+            reload_ok = 0
+        _VARIANT = [dup, unlinked, own, reload_ok]
     return _VARIANT
 
 
@@ -1147,6 +1224,24 @@ def _static(n, obj):
                     conns.append(f"{j}.{i}<c{o.label[1:]}.{list(o.outputs.labels).index(c.label)}")
     kids = ",".join(_static(ch, _kid(obj, j)) for j, ch in enumerate(n["body"]))
     return f"M(links=[{','.join(links)}];conns=[{','.join(conns)}];kids=[{kids}])"
+
+
+def _links(n, obj, path, out):
+    """where every macro input forwards to, by (child, channel) position: [path, k, target]"""
+    if n["t"] != "M":
+        return out
+    for k in range(len(n["args"])):
+        r = obj.inputs[f"x{k}"].value_receiver
+        if r is None:
+            tgt = "none"
+        elif r.owner.parent is not obj:
+            tgt = "gone"
+        else:
+            tgt = f"{r.owner.label}.{r.label}"
+        out.append([path_tok(path), k, tgt])
+    for j, ch in enumerate(n["body"]):
+        _links(ch, _kid(obj, j), list(path) + [j], out)
+    return out
 
 
 def _isolation(n, obj, path, out):
@@ -1504,7 +1599,9 @@ def _run(case, modname, variant):
     dead = False
     pristine = True
     ov_tok, ov_py = {}, {}
+    facts["op_start"] = []
     for op in case["ops"]:
+        facts["op_start"].append(len(obs))
         bump(f"op:{op[0]}")
         if dead:
             obs.append("dead")
@@ -1564,6 +1661,29 @@ def _run(case, modname, variant):
             path = op[1]
             target = _descend(m, path)
             nd = node_at(defn, path)
+            if op[0] in ("replace", "reload"):
+                before = _links(defn, m, [], [])
+                if op[0] == "replace":
+                    old_child = target.children[f"c{op[2]}"]
+                    if op[4] == "method":
+                        target.replace_child(old_child, nodes.term_node(op[3], label="fresh"))
+                    elif op[4] == "with":
+                        old_child.replace_with(nodes.term_node(op[3]))
+                    else:
+                        setattr(target, f"c{op[2]}", getattr(nodes, f"F{op[3]}"))
+                    target.children[f"c{op[2]}"].use_cache = bool(case["cache"])
+                    defn = apply_replace(defn, op)
+                else:
+                    target.save(backend="pickle")
+                    target.load(backend="pickle")
+                    target.delete_storage(backend="pickle")
+                    _set_cache(_descend(m, path), bool(case["cache"]))
+                snap = _snap(defn, m)
+                facts["snaps"].append(snap)
+                facts.setdefault("relink", []).append([len(facts["snaps"]) - 1, before, _links(defn, m, [], [])])
+                obs.append("static " + _static(defn, m))
+                obs.append("st " + _show(snap))
+                continue
             if op[0] in ("lock", "unlock"):
                 target.running = op[0] == "lock"
                 facts["snaps"].append(_snap(defn, m))
@@ -1684,6 +1804,12 @@ def model_input(case, impl=None):
             for k, val in op[1]:
                 kw += [str(k), *ptoks(val)]
             lines.append(" ".join(["call", str(len(op[1])), *kw]))
+        elif op[0] == "replace":
+            lines.append(f"replace {path_tok(op[1])} {op[2]} {op[3]}")
+        elif op[0] == "reload":
+            if len(v) > 3 and not v[3]:
+                break  # the tree loses the links on this path (KF-C09-4): nothing to compare beyond
+            lines.append(f"reload {path_tok(op[1])}")
         elif op[0] in ("lock", "unlock"):
             lines.append(f"{op[0]} {path_tok(op[1])}")
         elif op[0] in ("resend", "resendout"):
@@ -1702,9 +1828,18 @@ def corr_view(case, impl):
     if impl.get("facts", {}).get("build") == "iface":
         # the interface clause already failed (reported by the oracle): the object is not the defined macro
         return None
+    v = impl.get("variant") or []
+    cut = None  # the model input is cut at the first reload on a tree that loses the links there (KF-C09-4)
+    if len(v) > 3 and not v[3]:
+        cut = next((t for t, o in enumerate(case.get("ops", [])) if o[0] == "reload"), None)
     if impl.get("facts", {}).get("build") == "err":
         # nothing exists after a refused construction: the model answers every later op with `nostate`
-        return [x for x in obs if x.startswith("lab ")] + ["build err"] + ["nostate"] * len(case["ops"])
+        n_ops = len(case["ops"]) if cut is None else cut
+        n_lines = n_ops  # (every op line, `lock`/`unlock` included, is answered `nostate`)
+        return [x for x in obs if x.startswith("lab ")] + ["build err"] + ["nostate"] * n_lines
+    if cut is not None:
+        starts = (impl.get("facts") or {}).get("op_start") or []
+        return obs[: starts[cut]] if cut < len(starts) else obs
     return obs
 
 
@@ -1744,6 +1879,14 @@ def _op_repairs(defn, op, cache):
             out += chain_out(defn, op[1][:-1], ["o", op[1][-1], op[2]])
     elif op[0] == "setuiout":
         out += chain_out(defn, op[1], ["a", op[2]])
+    elif op[0] == "replace":
+        # the links of the replaced child are re-forged and the values pushed along them
+        mnode = node_at(defn, op[1])
+        for k in range(len(mnode["args"])):
+            ro = role(mnode, k)
+            if ro[0] == "child" and ro[1] == op[2]:
+                out.append(("in", list(op[1]), k))
+        out += chain_out(defn, op[1], ["o", op[2], 0])
     if op[0] in ("run", "call", "runx") and not cache:
         # everything is recomputed: every child output is set again, every connected input fetched again
         for p in [()] + _paths(defn):
@@ -1861,6 +2004,7 @@ def oracle(case, impl):
             return _f("interface", f"x{k} starts as {s0['in'][k]}, expected {exp}", trigger="build", part="initial",
                       label_inheritance=False)
     fails = []
+    relinks = {r[0]: r for r in facts.get("relink", [])}
     broken = set()  # links whose receiving end was written: they may differ until their sending end is updated
     ov = {}
     run_i = 0
@@ -1897,6 +2041,15 @@ def oracle(case, impl):
             break
         if op[0] in ("lock", "unlock"):
             continue
+        if op[0] in ("replace", "reload"):
+            # an edit: every macro input still forwards to the same (child, channel) position — the replaced
+            # child's position now held by the replacement, the reloaded macro's by its restored children
+            if op[0] == "replace":
+                defn = apply_replace(defn, op)
+            _t, before, after = relinks[t]
+            if before != after:
+                moved = [f"{a[0]}:x{a[1]} {a[2]} -> {b[2]}" for a, b in zip(before, after) if a != b]
+                return fails + _f("link-moved", f"after op #{t} {op}: {'; '.join(moved[:3])}", trigger=op[0])
         if any(r[0] == t for r in facts.get("refused", [])):
             # all or nothing: a refused assignment leaves every channel as it was
             prev_s = next((x for x in reversed(snaps[:t]) if x is not None), None)
@@ -1979,6 +2132,8 @@ def shrink_candidates(case):
     if case["kwargs"]:
         yield {**case, "kwargs": case["kwargs"][:-1]}
     d = case["def"]
+    if any(o[0] in ("replace", "reload") for o in ops):
+        return  # (edits address children by index: the definition is not shrunk under them)
     # drop the last child when nothing refers to it and no op addresses it
     if d["body"] and not _refs_child(d, len(d["body"]) - 1):
         j = len(d["body"]) - 1
